@@ -103,15 +103,15 @@ def step_qry3(**kw):
 
 
 def step_mut3t(**kw):
-    return step(k=3, which="mut", nflav=8, **kw)
+    return step(k=3, which="mut", nflav=6, **kw)
 
 
 def step_qry3t(**kw):
-    return step(k=3, which="qry", nflav=8, **kw)
+    return step(k=3, which="qry", nflav=4, **kw)
 
 
 def step_mut4(**kw):
-    return step(k=4, which="mut", nflav=8, **kw)
+    return step(k=4, which="mut", nflav=5, **kw)
 
 
 def step_qry4(**kw):
@@ -189,7 +189,11 @@ def plan(tier, seed):
             restrict = ["el == 0 or (not xa)"] if k == 4 else []
             if cname == "CRG":
                 restrict.append("role < 5")
+                restrict.append("el == 0")
+                restrict.append("not xa or (p0 and p1 and b01)")
             if cname == "SCRG":
+                restrict.append("cs in (0, 3, 5, 7)")
+                restrict.append("el == 0 or not xa")
                 restrict.append("ds in (0, 1, 8, 9) or cs == 0")
                 restrict.append("role in (0, 3, 6) or (ds == 0 and cs == 0)")
                 restrict.append("el == 0 or (ds == 0 and cs == 0)")
